@@ -1,7 +1,8 @@
 (* C16 - source positions match the barrier cut; every split has exactly one reader. Statements only. *)
 From Coq Require Import List NArith.
 From RV Require Import Model.RunnerLoop Model.SplitTracker Model.Splitters
-                       Proofs.C16_Runner Proofs.C16_Static Proofs.C16_Kinesis.
+                       Proofs.C16_Runner Proofs.C16_Static Proofs.C16_Kinesis Proofs.C16_Assign.
+From Coq Require Import Permutation.
 Import ListNotations.
 Open Scope N_scope.
 
@@ -52,6 +53,13 @@ Theorem one_reader_per_split_httpapi : forall runners states, (1 <= runners)%nat
   httpapi_assign runners states = [(0, httpapi_cursor states)].
 Proof. exact one_reader_httpapi. Qed.
 Print Assumptions one_reader_per_split_httpapi.
+
+(* one AssignSplits call of the Kinesis splitter lists every pending shard exactly once (and, by
+   restore_resumes_positions_kinesis, under a runner index < n) *)
+Theorem one_reader_per_split_kinesis_call : forall n cs shards, 1 <= n ->
+  Permutation (map (fun a => snd (fst a)) (assign_out n cs shards)) (map sid shards).
+Proof. exact assign_out_each_once. Qed.
+Print Assumptions one_reader_per_split_kinesis_call.
 
 (* ---- one_reader_per_split (Kinesis) and children_after_parents ---- *)
 
